@@ -839,6 +839,9 @@ func binop(fr *frame, op token.Token, t types.Type, x, y value) value {
 // eqnil returns the comparison x == y using the equivalence relation
 // appropriate for type t. The result is a bool or symBool.
 func eqnil(t types.Type, x, y value) value {
+	if t == nil {
+		return equalsV(t, x, y)
+	}
 	switch t.Underlying().(type) {
 	case *types.Map, *types.Signature, *types.Slice:
 		// Since these types don't support comparison,
